@@ -8,7 +8,7 @@ RULE = ("`fstw <type> <idx=value,...>`: the callback sequence of one signal driv
         "debug-assertion profile) vs Lean Fst model vs canon of the history. Quick: EVERY order of 2/4/9-state values (all sequences of kinds of length <= 4) x widths 1..24 "
         "(exhaustive), random histories to width 300 with redundant values, reals, strings. "
         "`fstfile <design> <exponent> <file>`: random designs written as whole FST files by gen/fst_writer.py (scopes and variables with kinds / directions / ranges / alias handles, "
-        "enum tables + references and GHDL-style VHDL type attributes, 1..n value-change blocks, snapshot as frame or as records, packed / ASCII / 1-bit record forms, raw / zlib "
+        "enum tables + references, GHDL-style VHDL type attributes, path names (ids in no particular order) with declaration / instantiation source stems on scopes, 1..n value-change blocks (a later block may repeat the last time of its predecessor), snapshot as frame or as records, packed / ASCII / 1-bit record forms, raw / zlib "
         "streams, every timescale exponent -15..0) through the real loader; full dump vs the Lean file-level model (callbacks -> SignalWriter model -> pointer-level builder) vs the "
         "design's denotation. `pairfile`: corpus VCD/FST pairs. non-trivial = at least one change; distinct = distinct (request, reply)")
 
@@ -87,9 +87,11 @@ def requests(ctx):
     from . import ghwgen
     for _ in range(400 if quick else 6000):
         dups = [] if rng.random() < 0.6 else None
-        d, _g, _v, f, e = ghwgen.gen_triple(rng, dups=dups)
-        # a 5th field lists the time-table positions a later block repeats (the table then holds that time twice)
-        rq.append(f"fstfile {d} {e} {f.hex()}" + (f" {','.join(dups)}" if dups else ""))
+        srcs = [] if rng.random() < 0.5 else None
+        d, _g, _v, f, e = ghwgen.gen_triple(rng, dups=dups, srcs=srcs)
+        # a 5th field lists the time-table positions a later block repeats (the table then holds that time twice), a 6th the source
+        # locators the hierarchy attaches to scopes (path names with ids in no particular order)
+        rq.append(f"fstfile {d} {e} {f.hex()} {','.join(dups) if dups else '-'} {';'.join(srcs) if srcs else '-'}")
     return rq
 
 
